@@ -1,1 +1,1170 @@
-//! Generators for the plist monitors.
+//! Generators for the plist monitors (C14, C15).
+//!
+//! The generator emits lines as (command, separator, argument) triples or as
+//! file names and therefore *knows* what every line has to parse to: the
+//! expectation travels with the line (`Line::want`).  `PlistEntry` and
+//! `PlistOption` are public API of the library, so the expectation is an
+//! ordinary `PlistEntry` value built with the enum's constructors (no library
+//! code runs for that).
+//!
+//! Soundness (DESIGN.md section 4): "blank" means space or tab here.  The
+//! bytes in `excluded_lead` (LF, VT, FF, CR, 0x1C-0x1F, 0x85, 0xA0) are never
+//! placed where the parser tests or strips blanks - as the first non-blank
+//! byte of a line or of an argument - because `char::is_whitespace` and
+//! `u8::is_ascii_whitespace` (and "blank") classify them differently.  They
+//! do occur in the middle and at the end of names and arguments.  No line
+//! contains LF.
+
+use crate::rng::Rng;
+use pkgsrc::plist::{PlistEntry, PlistOption};
+use std::ffi::OsString;
+use std::os::unix::ffi::OsStringExt;
+
+// ---------------------------------------------------------------------------
+// Expectations
+// ---------------------------------------------------------------------------
+
+#[derive(Clone, Copy, Debug, PartialEq, Eq)]
+pub enum ErrKind {
+    Unsupported,
+    IncorrectArgs,
+    Utf8,
+    /// The statement only says "an error" (wrong `@option` value).
+    Any,
+}
+
+pub enum Want {
+    Entry(PlistEntry),
+    Err(ErrKind),
+}
+
+pub struct Line {
+    pub bytes: Vec<u8>,
+    pub want: Want,
+    /// Command word (or "file" / "unknown") for the evidence matrix.
+    pub cmd: &'static str,
+    /// Argument class (or file-name class) for the evidence matrix.
+    pub arg: &'static str,
+}
+
+impl Line {
+    pub fn entry(&self) -> Option<&PlistEntry> {
+        match &self.want {
+            Want::Entry(e) => Some(e),
+            Want::Err(_) => None,
+        }
+    }
+    pub fn err(&self) -> Option<ErrKind> {
+        match &self.want {
+            Want::Entry(_) => None,
+            Want::Err(k) => Some(*k),
+        }
+    }
+}
+
+#[derive(Clone, Copy, Debug, PartialEq, Eq)]
+pub enum Kind {
+    File,
+    Cwd,
+    Exec,
+    UnExec,
+    Mode,
+    PkgOpt,
+    Owner,
+    Group,
+    Comment,
+    Ignore,
+    Name,
+    PkgDir,
+    DirRm,
+    Display,
+    PkgDep,
+    BldDep,
+    PkgCfl,
+}
+
+/// Every entry kind except `File` and `Ignore` ("other commands of every
+/// kind" in C15's workload).
+pub const OTHER_KINDS: &[Kind] = &[
+    Kind::Cwd,
+    Kind::Exec,
+    Kind::UnExec,
+    Kind::Mode,
+    Kind::PkgOpt,
+    Kind::Owner,
+    Kind::Group,
+    Kind::Comment,
+    Kind::Name,
+    Kind::PkgDir,
+    Kind::DirRm,
+    Kind::Display,
+    Kind::PkgDep,
+    Kind::BldDep,
+    Kind::PkgCfl,
+];
+
+#[derive(Clone, Copy, Debug, PartialEq, Eq)]
+pub enum Rule {
+    /// argument required, raw bytes
+    ReqRaw,
+    /// argument required, must be UTF-8
+    ReqStr,
+    /// argument optional, must be UTF-8 when present
+    OptStr,
+    /// argument optional, raw bytes
+    OptRaw,
+    /// argument forbidden
+    Forbidden,
+    /// `@option`: exactly `preserve`
+    Opt,
+}
+
+pub struct Cmd {
+    pub word: &'static str,
+    pub kind: Kind,
+    pub rule: Rule,
+}
+
+/// The command table, written from the statement of C14 / DESIGN.md.
+pub const CMDS: &[Cmd] = &[
+    Cmd { word: "@cwd", kind: Kind::Cwd, rule: Rule::ReqRaw },
+    Cmd { word: "@src", kind: Kind::Cwd, rule: Rule::ReqRaw },
+    Cmd { word: "@cd", kind: Kind::Cwd, rule: Rule::ReqRaw },
+    Cmd { word: "@exec", kind: Kind::Exec, rule: Rule::ReqRaw },
+    Cmd { word: "@unexec", kind: Kind::UnExec, rule: Rule::ReqRaw },
+    Cmd { word: "@pkgdir", kind: Kind::PkgDir, rule: Rule::ReqRaw },
+    Cmd { word: "@dirrm", kind: Kind::DirRm, rule: Rule::ReqRaw },
+    Cmd { word: "@display", kind: Kind::Display, rule: Rule::ReqRaw },
+    Cmd { word: "@name", kind: Kind::Name, rule: Rule::ReqStr },
+    Cmd { word: "@pkgdep", kind: Kind::PkgDep, rule: Rule::ReqStr },
+    Cmd { word: "@blddep", kind: Kind::BldDep, rule: Rule::ReqStr },
+    Cmd { word: "@pkgcfl", kind: Kind::PkgCfl, rule: Rule::ReqStr },
+    Cmd { word: "@mode", kind: Kind::Mode, rule: Rule::OptStr },
+    Cmd { word: "@owner", kind: Kind::Owner, rule: Rule::OptStr },
+    Cmd { word: "@group", kind: Kind::Group, rule: Rule::OptStr },
+    Cmd { word: "@comment", kind: Kind::Comment, rule: Rule::OptRaw },
+    Cmd { word: "@ignore", kind: Kind::Ignore, rule: Rule::Forbidden },
+    Cmd { word: "@option", kind: Kind::PkgOpt, rule: Rule::Opt },
+];
+
+/// Argument classes of every command except `@option`.
+pub const ARG_CLASSES: &[&str] =
+    &["absent", "empty", "blank", "ascii", "utf8", "latin1", "tricky", "raw"];
+/// Argument classes of `@option`.
+pub const OPT_CLASSES: &[&str] = &[
+    "absent",
+    "empty",
+    "blank",
+    "preserve",
+    "preserve-padded",
+    "wrong-ascii",
+    "wrong-trailing",
+    "wrong-latin1",
+];
+
+pub fn classes_of(cmd: &Cmd) -> &'static [&'static str] {
+    if cmd.rule == Rule::Opt {
+        OPT_CLASSES
+    } else {
+        ARG_CLASSES
+    }
+}
+
+/// Words that begin with '@' and are not commands.  None contains a space:
+/// the command word ends at the first SPACE (a tab does not separate).
+pub const UNKNOWN: &[&[u8]] = &[
+    b"@bogus",
+    b"@",
+    b"@NAME",
+    b"@name\tfoo",
+    b"@Cwd",
+    b"@cwdx",
+    b"@cw",
+    b"@@name",
+    b"@comment\tx",
+    b"@ignore\t",
+    b"@names",
+    b"@option\tpreserve",
+    b"@pkgdepp",
+    b"@cd/",
+    b"@na\xffme",
+    b"@\xe9",
+    b"@srcs",
+    b"@exe",
+    b"@dirrm\t/x",
+    b"@IGNORE",
+    b"@cwd\t",
+    b"@mode=0644",
+];
+pub const UNKNOWN_NAMES: &[&str] = &[
+    "@bogus",
+    "@",
+    "@NAME",
+    "@name<TAB>foo",
+    "@Cwd",
+    "@cwdx",
+    "@cw",
+    "@@name",
+    "@comment<TAB>x",
+    "@ignore<TAB>",
+    "@names",
+    "@option<TAB>preserve",
+    "@pkgdepp",
+    "@cd/",
+    "@na<ff>me",
+    "@<e9>",
+    "@srcs",
+    "@exe",
+    "@dirrm<TAB>/x",
+    "@IGNORE",
+    "@cwd<TAB>",
+    "@mode=0644",
+];
+pub const UNKNOWN_ARGS: &[&str] = &["absent", "empty", "ascii"];
+
+pub const FILE_CLASSES: &[&str] = &[
+    "len1",
+    "len2",
+    "len3",
+    "ascii",
+    "spaces",
+    "trail-blank",
+    "lead-blank",
+    "lead-blank-at",
+    "plus",
+    "latin1",
+    "utf8",
+    "raw",
+    "at-inside",
+    "long",
+];
+
+fn os(b: &[u8]) -> OsString {
+    OsString::from_vec(b.to_vec())
+}
+
+/// Build the entry of a kind from its (already stripped) argument.  `None`
+/// when the combination does not denote an entry.
+pub fn entry(kind: Kind, arg: Option<&[u8]>) -> Option<PlistEntry> {
+    use PlistEntry as E;
+    let s = |b: &[u8]| String::from_utf8(b.to_vec()).ok();
+    Some(match (kind, arg) {
+        (Kind::File, Some(a)) => E::File(os(a)),
+        (Kind::Cwd, Some(a)) => E::Cwd(os(a)),
+        (Kind::Exec, Some(a)) => E::Exec(os(a)),
+        (Kind::UnExec, Some(a)) => E::UnExec(os(a)),
+        (Kind::PkgDir, Some(a)) => E::PkgDir(os(a)),
+        (Kind::DirRm, Some(a)) => E::DirRm(os(a)),
+        (Kind::Display, Some(a)) => E::Display(os(a)),
+        (Kind::Name, Some(a)) => E::Name(s(a)?),
+        (Kind::PkgDep, Some(a)) => E::PkgDep(s(a)?),
+        (Kind::BldDep, Some(a)) => E::BldDep(s(a)?),
+        (Kind::PkgCfl, Some(a)) => E::PkgCfl(s(a)?),
+        (Kind::Mode, None) => E::Mode(None),
+        (Kind::Mode, Some(a)) => E::Mode(Some(s(a)?)),
+        (Kind::Owner, None) => E::Owner(None),
+        (Kind::Owner, Some(a)) => E::Owner(Some(s(a)?)),
+        (Kind::Group, None) => E::Group(None),
+        (Kind::Group, Some(a)) => E::Group(Some(s(a)?)),
+        (Kind::Comment, None) => E::Comment(None),
+        (Kind::Comment, Some(a)) => E::Comment(Some(os(a))),
+        (Kind::Ignore, None) => E::Ignore,
+        (Kind::PkgOpt, Some(b"preserve")) => E::PkgOpt(PlistOption::Preserve),
+        _ => return None,
+    })
+}
+
+/// The argument rule of the command table: what a command line with the
+/// given stripped argument (`None` = absent, empty or blank-only) must give.
+pub fn want_for(cmd: &Cmd, arg: Option<&[u8]>) -> Want {
+    let utf8 = |a: &[u8]| std::str::from_utf8(a).is_ok();
+    let ent = |a: Option<&[u8]>| match entry(cmd.kind, a) {
+        Some(e) => Want::Entry(e),
+        // unreachable by construction; an "any error" expectation is the
+        // weakest claim and keeps the harness from panicking
+        None => Want::Err(ErrKind::Any),
+    };
+    match (cmd.rule, arg) {
+        (Rule::ReqRaw, None) | (Rule::ReqStr, None) | (Rule::Opt, None) => {
+            Want::Err(ErrKind::IncorrectArgs)
+        }
+        (Rule::ReqRaw, Some(a)) | (Rule::OptRaw, Some(a)) => ent(Some(a)),
+        (Rule::ReqStr, Some(a)) | (Rule::OptStr, Some(a)) => {
+            if utf8(a) {
+                ent(Some(a))
+            } else {
+                Want::Err(ErrKind::Utf8)
+            }
+        }
+        (Rule::OptStr, None) | (Rule::OptRaw, None) | (Rule::Forbidden, None) => ent(None),
+        (Rule::Forbidden, Some(_)) => Want::Err(ErrKind::IncorrectArgs),
+        (Rule::Opt, Some(a)) => {
+            if a == b"preserve" {
+                ent(Some(a))
+            } else {
+                Want::Err(ErrKind::Any)
+            }
+        }
+    }
+}
+
+// ---------------------------------------------------------------------------
+// Byte-level building blocks
+// ---------------------------------------------------------------------------
+
+pub fn is_blank(b: u8) -> bool {
+    b == b' ' || b == b'\t'
+}
+
+/// Bytes on whose white-space status the readings differ (plus LF, which
+/// never occurs inside a line at all).
+pub fn excluded_lead(b: u8) -> bool {
+    matches!(b, 0x0A | 0x0B | 0x0C | 0x0D | 0x1C..=0x1F | 0x85 | 0xA0)
+}
+
+/// Bytes that tend to expose sloppy slicing, trimming or conversion.  Used in
+/// the middle and at the end of names and arguments only.
+pub const DANGER: &[u8] = &[
+    0x00, 0x01, 0x0B, 0x0C, 0x0D, 0x1C, 0x1F, 0x7F, 0x80, 0x85, 0xA0, 0xC2, 0xE9, 0xF8, 0xFF, b'@',
+    b'=', b' ', b'\t', b'\\', b'"', b'[', b']', b'{', b'}', b',', b'%', b'\'',
+];
+
+const UTF8_BITS: &[&str] = &["\u{e9}", "\u{20ac}", "\u{1f496}", "\u{65e5}\u{672c}", "\u{f8}", "\u{df}"];
+const LATIN1_BITS: &[u8] = &[0xE9, 0xF8, 0xFF, 0xFC, 0xC3, 0x80];
+
+const PATHS: &[&str] = &[
+    "bin/foo",
+    "lib/libfoo.so.1.2",
+    "share/doc/pkg/README",
+    "man/man1/foo.1",
+    "etc/rc.d/food",
+    "a",
+    "b/c",
+    "include/x.h",
+    "share/examples/foo/foo.conf",
+    "+BUILD_INFO",
+    "libexec/foo-1.0/helper",
+];
+const DIRS: &[&str] =
+    &["/usr/pkg", "/opt/pkg", "/", "/usr/pkg/", "/var/db/pkg", "opt", "/a/b/", ".", "//", "/tmp"];
+const NAMES: &[&str] = &[
+    "pkgtest-1.0",
+    "foo-1.2nb3",
+    "dep-pkg1-[0-9]*",
+    "dep-pkg2>=2.0",
+    "cfl-pkg1<2.0",
+    "p5-Foo-Bar-0.01",
+    "x",
+    "{a,b}-[0-9]*",
+    "foo>=1.0<2.0",
+];
+const WORDS: &[&str] = &["0644", "root", "wheel", "u+rwx", "bin", "755", "nobody", "MESSAGE", "hi"];
+const SHELL: &[&str] = &[
+    "echo \"I just installed F=%F D=%D B=%B f=%f\"",
+    "rm -f %D/share/foo",
+    "${MKDIR} %D/var && true",
+    "true",
+    "install-info --delete %D/info/dir",
+    "$NetBSD$",
+];
+
+fn pickb(r: &mut Rng, xs: &[&'static [u8]]) -> &'static [u8] {
+    xs[r.below(xs.len())]
+}
+
+fn blanks(r: &mut Rng, lo: usize, hi: usize) -> Vec<u8> {
+    let n = r.range(lo, hi);
+    (0..n).map(|_| if r.chance(2, 3) { b' ' } else { b'\t' }).collect()
+}
+
+fn ascii_for(r: &mut Rng, kind: Kind) -> Vec<u8> {
+    let pool: &[&str] = match kind {
+        Kind::File => PATHS,
+        Kind::Cwd | Kind::PkgDir | Kind::DirRm => DIRS,
+        Kind::Name | Kind::PkgDep | Kind::BldDep | Kind::PkgCfl => NAMES,
+        Kind::Exec | Kind::UnExec | Kind::Comment => SHELL,
+        _ => WORDS,
+    };
+    if r.chance(1, 6) {
+        // random printable text of length 1..12 (no blank first)
+        let n = r.range(1, 12);
+        let mut v: Vec<u8> = (0..n).map(|_| 0x21 + (r.below(0x7e - 0x21 + 1) as u8)).collect();
+        if kind == Kind::File && v[0] == b'@' {
+            v[0] = b'a';
+        }
+        v
+    } else {
+        r.pick(pool).as_bytes().to_vec()
+    }
+}
+
+fn with_utf8(r: &mut Rng, mut base: Vec<u8>) -> Vec<u8> {
+    // base is ASCII, so every position is a character boundary
+    for _ in 0..r.range(1, 3) {
+        let at = r.below(base.len() + 1);
+        let bit = r.pick(UTF8_BITS).as_bytes();
+        base.splice(at..at, bit.iter().copied());
+    }
+    base
+}
+
+fn with_latin1(r: &mut Rng, mut base: Vec<u8>) -> Vec<u8> {
+    for _ in 0..r.range(1, 3) {
+        let at = r.below(base.len() + 1);
+        base.insert(at, *r.pick(LATIN1_BITS));
+    }
+    if std::str::from_utf8(&base).is_ok() {
+        base.push(0xFF);
+    }
+    base
+}
+
+fn tricky(r: &mut Rng, mut base: Vec<u8>) -> Vec<u8> {
+    for _ in 0..r.range(1, 3) {
+        match r.below(6) {
+            0 => base.extend(blanks(r, 1, 3)), // trailing blanks
+            1 => {
+                let at = r.range(1, base.len());
+                base.splice(at..at, [b' ', b' ']); // inner spaces
+            }
+            2 => {
+                let at = r.range(1, base.len());
+                base.insert(at, *r.pick(b"@=\t"));
+            }
+            3 => {
+                let at = r.range(1, base.len());
+                base.insert(at, *r.pick(DANGER)); // middle
+            }
+            4 => base.push(*r.pick(DANGER)), // end
+            _ => {
+                // looks like another command / assignment
+                base.extend_from_slice(pickb(r, &[&b" @name x"[..], b" = y", b" @", b"=", b"\t@ignore"]));
+            }
+        }
+    }
+    base
+}
+
+fn raw(r: &mut Rng) -> Vec<u8> {
+    let n = if r.chance(1, 4) { r.range(1, 3) } else { r.range(1, 24) };
+    (0..n).map(|_| if r.chance(1, 4) { *r.pick(DANGER) } else { r.byte() }).collect()
+}
+
+/// Make a byte string usable as an argument or as a file name without
+/// leading blanks: no LF, non-empty, first byte neither blank nor in the
+/// excluded set.
+fn sanitize(v: &mut Vec<u8>) {
+    for b in v.iter_mut() {
+        if *b == b'\n' {
+            *b = b'n';
+        }
+    }
+    if v.is_empty() {
+        v.push(b'x');
+    }
+    if is_blank(v[0]) || excluded_lead(v[0]) {
+        v[0] = b'x';
+    }
+}
+
+fn payload(r: &mut Rng, class: &str, kind: Kind) -> Vec<u8> {
+    let base = ascii_for(r, kind);
+    let mut v = match class {
+        "ascii" => base,
+        "utf8" => with_utf8(r, base),
+        "latin1" => with_latin1(r, base),
+        "tricky" => tricky(r, base),
+        _ => raw(r),
+    };
+    sanitize(&mut v);
+    if class == "latin1" && std::str::from_utf8(&v).is_ok() {
+        v.push(0xFF);
+    }
+    v
+}
+
+/// Separator between command word and argument: the first SPACE, then
+/// usually nothing, sometimes more blanks (which the parser must strip).
+fn separator(r: &mut Rng) -> Vec<u8> {
+    let mut s = vec![b' '];
+    if r.chance(1, 4) {
+        s.extend(blanks(r, 1, 3));
+    }
+    s
+}
+
+// ---------------------------------------------------------------------------
+// Lines
+// ---------------------------------------------------------------------------
+
+/// A command line for `CMDS[ci]` with an argument of class `classes_of(..)[ai]`.
+pub fn command_line(r: &mut Rng, ci: usize, ai: usize) -> Line {
+    let cmd = &CMDS[ci % CMDS.len()];
+    let classes = classes_of(cmd);
+    let class = classes[ai % classes.len()];
+    let mut bytes = cmd.word.as_bytes().to_vec();
+    let mut arg: Option<Vec<u8>> = None;
+    match class {
+        "absent" => {}
+        "empty" => bytes.push(b' '),
+        "blank" => {
+            bytes.push(b' ');
+            bytes.extend(blanks(r, 1, 3));
+        }
+        "preserve" => {
+            bytes.extend_from_slice(b" preserve");
+            arg = Some(b"preserve".to_vec());
+        }
+        "preserve-padded" => {
+            bytes.push(b' ');
+            bytes.extend(blanks(r, 1, 3));
+            bytes.extend_from_slice(b"preserve");
+            arg = Some(b"preserve".to_vec());
+        }
+        "wrong-ascii" => {
+            let a = pickb(r, &[&b"Preserve"[..],
+                    b"preserved",
+                    b"preserv",
+                    b"preserve x",
+                    b"invalid",
+                    b"PRESERVE",
+                    b"p",
+                    b"preserve=yes",
+                    b"@option preserve",
+                ])
+                .to_vec();
+            bytes.extend(separator(r));
+            bytes.extend_from_slice(&a);
+            arg = Some(a);
+        }
+        "wrong-trailing" => {
+            let mut a = b"preserve".to_vec();
+            a.extend(blanks(r, 1, 2));
+            bytes.extend(separator(r));
+            bytes.extend_from_slice(&a);
+            arg = Some(a);
+        }
+        "wrong-latin1" => {
+            let a = with_latin1(r, b"preserve".to_vec());
+            let mut a2 = a;
+            sanitize(&mut a2);
+            bytes.extend(separator(r));
+            bytes.extend_from_slice(&a2);
+            arg = Some(a2);
+        }
+        other => {
+            let a = payload(r, other, cmd.kind);
+            bytes.extend(separator(r));
+            bytes.extend_from_slice(&a);
+            arg = Some(a);
+        }
+    }
+    let want = want_for(cmd, arg.as_deref());
+    Line { bytes, want, cmd: cmd.word, arg: class }
+}
+
+/// A line starting with '@' whose first word is not a command.
+pub fn unknown_line(r: &mut Rng, wi: usize, ai: usize) -> Line {
+    let wi = wi % UNKNOWN.len();
+    let class = UNKNOWN_ARGS[ai % UNKNOWN_ARGS.len()];
+    let mut bytes = UNKNOWN[wi].to_vec();
+    match class {
+        "absent" => {}
+        "empty" => bytes.push(b' '),
+        _ => {
+            bytes.extend(separator(r));
+            bytes.extend(payload(r, "ascii", Kind::Comment));
+        }
+    }
+    Line { bytes, want: Want::Err(ErrKind::Unsupported), cmd: "unknown", arg: UNKNOWN_NAMES[wi] }
+}
+
+const ONE: &[u8] = b"abzAZ019+-._~/\\#$%&*()=?!<>|;:,'\"[]{}\x00\x01\x7f\x80\xc2\xe9\xf8\xff";
+
+/// One byte that is a complete, non-blank file name on its own.
+pub fn single_char(r: &mut Rng) -> u8 {
+    if r.chance(1, 5) {
+        loop {
+            let b = r.byte();
+            if b != b'@' && !is_blank(b) && !excluded_lead(b) {
+                return b;
+            }
+        }
+    }
+    *r.pick(ONE)
+}
+
+/// A file line of class `FILE_CLASSES[fi]`: the whole line is the name.
+pub fn file_line(r: &mut Rng, fi: usize) -> Line {
+    let class = FILE_CLASSES[fi % FILE_CLASSES.len()];
+    let mut v: Vec<u8> = match class {
+        "len1" => vec![single_char(r)],
+        "len2" => {
+            let b = if r.chance(1, 2) { *r.pick(DANGER) } else { r.byte() };
+            vec![single_char(r), b]
+        }
+        "len3" => {
+            let b = if r.chance(1, 2) { *r.pick(DANGER) } else { r.byte() };
+            let c = if r.chance(1, 2) { *r.pick(DANGER) } else { r.byte() };
+            vec![single_char(r), b, c]
+        }
+        "ascii" => ascii_for(r, Kind::File),
+        "spaces" => {
+            let mut b = ascii_for(r, Kind::File);
+            b.push(b' ');
+            b.extend(ascii_for(r, Kind::File));
+            if r.chance(1, 3) {
+                b.extend_from_slice(b"  x");
+            }
+            b
+        }
+        "trail-blank" => {
+            let mut b = ascii_for(r, Kind::File);
+            b.extend(blanks(r, 1, 3));
+            b
+        }
+        "lead-blank" => {
+            let mut b = blanks(r, 1, 3);
+            let mut p = if r.chance(1, 3) { vec![single_char(r)] } else { payload(r, "tricky", Kind::File) };
+            sanitize(&mut p);
+            b.extend(p);
+            b
+        }
+        "lead-blank-at" => {
+            // blanks, then something that would be a command (or an error)
+            // if the blanks were stripped
+            let mut b = blanks(r, 1, 2);
+            b.extend_from_slice(pickb(r, &[&b"@comment hi"[..],
+                b"@comment ",
+                b"@name x-1.0",
+                b"@bogus",
+                b"@",
+                b"@ignore",
+                b"@cwd /",
+                b"@ignore x",
+                b"@name",
+            ]));
+            b
+        }
+        "plus" => {
+            let mut b = b"+".to_vec();
+            b.extend_from_slice(pickb(r, &[&b"CONTENTS"[..],
+                b"BUILD_INFO",
+                b"DESC",
+                b"COMMENT",
+                b"",
+                b"+",
+                b" x",
+            ]));
+            b
+        }
+        "latin1" => {
+            let b = ascii_for(r, Kind::File);
+            with_latin1(r, b)
+        }
+        "utf8" => {
+            let b = ascii_for(r, Kind::File);
+            with_utf8(r, b)
+        }
+        "raw" => raw(r),
+        "at-inside" => {
+            let mut b = ascii_for(r, Kind::File);
+            b.extend_from_slice(pickb(r, &[&b"@"[..], b" @name x", b"@cwd /", b"/@", b" @"]));
+            b
+        }
+        _ => {
+            // long: a few hundred to a few thousand bytes
+            let n = if r.chance(1, 8) { r.range(1000, 5000) } else { r.range(64, 400) };
+            (0..n).map(|_| if r.chance(1, 10) { *r.pick(DANGER) } else { r.byte() }).collect()
+        }
+    };
+    let lead = matches!(class, "lead-blank" | "lead-blank-at");
+    if !lead {
+        sanitize(&mut v);
+        if v[0] == b'@' {
+            v[0] = b'a';
+        }
+    } else {
+        for b in v.iter_mut() {
+            if *b == b'\n' {
+                *b = b'n';
+            }
+        }
+    }
+    let want = match entry(Kind::File, Some(&v)) {
+        Some(e) => Want::Entry(e),
+        None => Want::Err(ErrKind::Any),
+    };
+    Line { bytes: v, want, cmd: "file", arg: class }
+}
+
+/// Number of cells of the (line kind x class) table.
+pub fn table_cells() -> usize {
+    let mut n = FILE_CLASSES.len() + UNKNOWN.len() * UNKNOWN_ARGS.len();
+    for c in CMDS {
+        n += classes_of(c).len();
+    }
+    n
+}
+
+/// The line of table cell `cell` (round-robin enumeration of every file
+/// class, every command x argument class, every unknown word x class).
+pub fn table_line(r: &mut Rng, cell: usize) -> Line {
+    let mut c = cell % table_cells();
+    if c < FILE_CLASSES.len() {
+        return file_line(r, c);
+    }
+    c -= FILE_CLASSES.len();
+    for (ci, cmd) in CMDS.iter().enumerate() {
+        let k = classes_of(cmd).len();
+        if c < k {
+            return command_line(r, ci, c);
+        }
+        c -= k;
+    }
+    unknown_line(r, c / UNKNOWN_ARGS.len(), c % UNKNOWN_ARGS.len())
+}
+
+/// A random line that must parse to an entry.
+pub fn valid_line(r: &mut Rng) -> Line {
+    if r.chance(2, 5) {
+        let fi = r.below(FILE_CLASSES.len());
+        return file_line(r, fi);
+    }
+    let ci = r.below(CMDS.len());
+    valid_command(r, ci)
+}
+
+fn valid_command(r: &mut Rng, ci: usize) -> Line {
+    let k = classes_of(&CMDS[ci]).len();
+    for _ in 0..16 {
+        let ai = r.below(k);
+        let l = command_line(r, ci, ai);
+        if l.entry().is_some() {
+            return l;
+        }
+    }
+    // an argument class that is valid for every rule but Forbidden / Opt
+    let fallback = match CMDS[ci].rule {
+        Rule::Forbidden => 0, // absent
+        _ => 3,               // ascii / "preserve"
+    };
+    command_line(r, ci, fallback)
+}
+
+/// A random valid line of the given entry kind (aliases of `@cwd` included).
+pub fn valid_of_kind(r: &mut Rng, kind: Kind) -> Line {
+    if kind == Kind::File {
+        let fi = r.below(FILE_CLASSES.len());
+        return file_line(r, fi);
+    }
+    let idx: Vec<usize> = (0..CMDS.len()).filter(|&i| CMDS[i].kind == kind).collect();
+    let ci = *r.pick(&idx);
+    valid_command(r, ci)
+}
+
+/// A random line that must be rejected.
+pub fn faulty_line(r: &mut Rng) -> Line {
+    if r.chance(1, 3) {
+        let (wi, ai) = (r.below(UNKNOWN.len()), r.below(UNKNOWN_ARGS.len()));
+        return unknown_line(r, wi, ai);
+    }
+    for _ in 0..64 {
+        let ci = r.below(CMDS.len());
+        let ai = r.below(classes_of(&CMDS[ci]).len());
+        let l = command_line(r, ci, ai);
+        if l.err().is_some() {
+            return l;
+        }
+    }
+    unknown_line(r, 0, 0)
+}
+
+// ---------------------------------------------------------------------------
+// Documents
+// ---------------------------------------------------------------------------
+
+/// A physical line of a document: a blank(-only) line or the i-th item.
+#[derive(Clone, Debug, PartialEq, Eq)]
+pub enum Phys {
+    Blank(Vec<u8>),
+    Item(usize),
+}
+
+/// Physical layout of a document over a list of item lines.
+#[derive(Clone, Debug)]
+pub struct Layout {
+    pub phys: Vec<Phys>,
+    pub final_nl: bool,
+}
+
+pub fn blank_line(r: &mut Rng) -> Vec<u8> {
+    if r.chance(1, 2) {
+        vec![]
+    } else {
+        blanks(r, 1, 4)
+    }
+}
+
+/// Items in order with blank lines sprinkled "everywhere" (before the
+/// first, between any two, after the last) with the given density in 1/8.
+pub fn layout(r: &mut Rng, nitems: usize, density: usize) -> Layout {
+    let mut phys = vec![];
+    for i in 0..=nitems {
+        while r.chance(density, 8 + density) {
+            phys.push(Phys::Blank(blank_line(r)));
+        }
+        if i < nitems {
+            phys.push(Phys::Item(i));
+        }
+    }
+    Layout { phys, final_nl: r.chance(1, 2) }
+}
+
+pub fn render(items: &[&[u8]], lay: &Layout) -> Vec<u8> {
+    let mut out = vec![];
+    for (k, p) in lay.phys.iter().enumerate() {
+        if k > 0 {
+            out.push(b'\n');
+        }
+        match p {
+            Phys::Blank(b) => out.extend_from_slice(b),
+            Phys::Item(i) => out.extend_from_slice(items[*i]),
+        }
+    }
+    if lay.final_nl {
+        out.push(b'\n');
+    }
+    out
+}
+
+/// Is the last item followed directly by the end of input (no newline)?
+pub fn last_item_unterminated(lay: &Layout) -> bool {
+    !lay.final_nl && matches!(lay.phys.last(), Some(Phys::Item(_)))
+}
+
+// Equality-preserving layout edits (C14 metamorphic relation).
+
+pub fn insert_blanks(r: &mut Rng, lay: &Layout) -> Layout {
+    let mut l = lay.clone();
+    for _ in 0..r.range(1, 3) {
+        let at = r.below(l.phys.len() + 1);
+        l.phys.insert(at, Phys::Blank(blank_line(r)));
+    }
+    l
+}
+
+pub fn toggle_final_newline(lay: &Layout) -> Layout {
+    let mut l = lay.clone();
+    l.final_nl = !l.final_nl;
+    l
+}
+
+pub fn repad_blanks(r: &mut Rng, lay: &Layout) -> Layout {
+    let mut l = lay.clone();
+    let mut any = false;
+    for p in l.phys.iter_mut() {
+        if let Phys::Blank(b) = p {
+            *b = if b.is_empty() { blanks(r, 1, 4) } else if r.chance(1, 2) { vec![] } else { blanks(r, 1, 4) };
+            any = true;
+        }
+    }
+    if !any {
+        l.phys.push(Phys::Blank(blanks(r, 1, 4)));
+    }
+    l
+}
+
+// Equality-breaking layout edits.  Each returns None when not applicable.
+
+fn item_positions(lay: &Layout) -> Vec<usize> {
+    (0..lay.phys.len()).filter(|&k| matches!(lay.phys[k], Phys::Item(_))).collect()
+}
+
+pub fn delete_item(r: &mut Rng, lay: &Layout) -> Option<Layout> {
+    let pos = item_positions(lay);
+    if pos.is_empty() {
+        return None;
+    }
+    let mut l = lay.clone();
+    l.phys.remove(*r.pick(&pos));
+    Some(l)
+}
+
+pub fn duplicate_item(r: &mut Rng, lay: &Layout) -> Option<Layout> {
+    let pos = item_positions(lay);
+    if pos.is_empty() {
+        return None;
+    }
+    let mut l = lay.clone();
+    let k = *r.pick(&pos);
+    let at = if r.chance(1, 2) { k + 1 } else { r.below(l.phys.len() + 1) };
+    let it = l.phys[k].clone();
+    l.phys.insert(at, it);
+    Some(l)
+}
+
+/// Swap two items for which `differ(i, j)` holds.
+pub fn swap_items(r: &mut Rng, lay: &Layout, differ: &dyn Fn(usize, usize) -> bool) -> Option<Layout> {
+    let pos = item_positions(lay);
+    let mut pairs = vec![];
+    for a in 0..pos.len() {
+        for b in a + 1..pos.len() {
+            if let (Phys::Item(i), Phys::Item(j)) = (&lay.phys[pos[a]], &lay.phys[pos[b]]) {
+                if differ(*i, *j) {
+                    pairs.push((pos[a], pos[b]));
+                }
+            }
+        }
+    }
+    if pairs.is_empty() {
+        return None;
+    }
+    let (a, b) = *r.pick(&pairs);
+    let mut l = lay.clone();
+    l.phys.swap(a, b);
+    Some(l)
+}
+
+// ---------------------------------------------------------------------------
+// C15: entry sequences that stress the ignore flag and the prefix
+// ---------------------------------------------------------------------------
+
+pub const SCENARIOS: &[&str] = &[
+    "tiny",
+    "plain",
+    "consecutive-ignore",
+    "trailing-ignore",
+    "separated-ignore",
+    "ignore-before-first-file",
+    "no-cwd",
+    "cwd-slash",
+    "cwd-nonutf8",
+    "cwd-change-in-window",
+    "several-name-display",
+    "preserve",
+    "random-mix",
+];
+
+fn cwd_line(r: &mut Rng, style: usize) -> Line {
+    let word = *r.pick(&["@cwd", "@src", "@cd"]);
+    let arg: Vec<u8> = match style % 5 {
+        0 => pickb(r, &[&b"/usr/pkg"[..], b"/opt/pkg", b"opt", b"/a/b", b"."]).to_vec(),
+        1 => pickb(r, &[&b"/usr/pkg/"[..], b"/", b"//", b"/a/b/", b"x/"]).to_vec(),
+        2 => pickb(r, &[&b"/opt/\xe9"[..], b"/\xf8/x", b"/opt/p\xc3", b"\xff", b"/a\xc2"]).to_vec(),
+        3 => pickb(r, &[&b"/opt/\xe9/"[..], b"/\xf8/", b"\xff/", b"/p\xc3/"]).to_vec(),
+        _ => {
+            let class = *r.pick(&["ascii", "utf8", "tricky", "raw"]);
+            let mut v = payload(r, class, Kind::Cwd);
+            if r.chance(1, 3) {
+                v.push(b'/');
+            }
+            v
+        }
+    };
+    let mut bytes = word.as_bytes().to_vec();
+    bytes.extend(separator(r));
+    bytes.extend_from_slice(&arg);
+    let want = match entry(Kind::Cwd, Some(&arg)) {
+        Some(e) => Want::Entry(e),
+        None => Want::Err(ErrKind::Any),
+    };
+    Line { bytes, want, cmd: word, arg: "cwd-style" }
+}
+
+fn file(r: &mut Rng) -> Line {
+    if r.chance(2, 3) {
+        file_line(r, 3) // plain ASCII path: keeps samples readable
+    } else {
+        let fi = r.below(FILE_CLASSES.len() - 1); // every class but "long"
+        file_line(r, fi)
+    }
+}
+
+fn ignore(r: &mut Rng) -> Line {
+    valid_of_kind(r, Kind::Ignore)
+}
+
+fn random_element(r: &mut Rng) -> Line {
+    match r.below(20) {
+        0..=6 => file(r),
+        7..=9 => ignore(r),
+        10..=12 => {
+            let s = r.below(5);
+            cwd_line(r, s)
+        }
+        _ => {
+            let k = *r.pick(OTHER_KINDS);
+            valid_of_kind(r, k)
+        }
+    }
+}
+
+/// An entry sequence of length 0-30 for scenario `SCENARIOS[sc]`; `rot`
+/// rotates through "every other command kind" deterministically.
+pub fn sequence(r: &mut Rng, sc: usize, rot: usize) -> Vec<Line> {
+    let mut core: Vec<Line> = vec![];
+    let other = |r: &mut Rng, k: usize| {
+        let kind = OTHER_KINDS[(rot + k) % OTHER_KINDS.len()];
+        if kind == Kind::Cwd {
+            let s = r.below(5);
+            cwd_line(r, s)
+        } else {
+            valid_of_kind(r, kind)
+        }
+    };
+    let mut with_filler = true;
+    let mut allow_cwd_filler = true;
+    match SCENARIOS[sc % SCENARIOS.len()] {
+        "tiny" => {
+            for _ in 0..r.below(3) {
+                core.push(random_element(r));
+            }
+            with_filler = false;
+        }
+        "plain" => {
+            core.push(cwd_line(r, 0));
+            for _ in 0..r.range(1, 4) {
+                core.push(file(r));
+            }
+            let s = r.below(5);
+            core.push(cwd_line(r, s));
+            core.push(file(r));
+        }
+        "consecutive-ignore" => {
+            core.push(file(r));
+            for _ in 0..r.range(2, 4) {
+                core.push(ignore(r));
+            }
+            core.push(file(r));
+            core.push(file(r));
+        }
+        "trailing-ignore" => {
+            for _ in 0..r.below(3) {
+                core.push(file(r));
+            }
+            core.push(ignore(r));
+            if r.chance(1, 2) {
+                core.push(other(r, 0));
+            }
+            // nothing but non-file entries may follow: filler goes in front
+            let mut pre = vec![];
+            for _ in 0..r.below(8) {
+                pre.push(random_element(r));
+            }
+            pre.extend(core);
+            return truncate_keep_tail(pre);
+        }
+        "separated-ignore" => {
+            core.push(file(r));
+            core.push(ignore(r));
+            let k = 1 + (rot / OTHER_KINDS.len()) % 3;
+            for j in 0..k {
+                core.push(other(r, j));
+            }
+            core.push(file(r));
+            core.push(file(r));
+        }
+        "ignore-before-first-file" => {
+            let mut pre = vec![];
+            for j in 0..r.below(3) {
+                pre.push(other(r, j));
+            }
+            pre.push(ignore(r));
+            if r.chance(1, 2) {
+                pre.push(other(r, 3));
+            }
+            pre.push(file(r));
+            pre.push(file(r));
+            for _ in 0..r.below(6) {
+                pre.push(random_element(r));
+            }
+            return pre;
+        }
+        "no-cwd" => {
+            allow_cwd_filler = false;
+            core.push(file(r));
+            core.push(ignore(r));
+            core.push(file(r));
+            core.push(file(r));
+        }
+        "cwd-slash" => {
+            core.push(cwd_line(r, 1));
+            core.push(file(r));
+            core.push(cwd_line(r, 0));
+            core.push(file(r));
+            core.push(cwd_line(r, 3));
+            core.push(file(r));
+        }
+        "cwd-nonutf8" => {
+            core.push(cwd_line(r, 2));
+            core.push(file(r));
+            core.push(ignore(r));
+            core.push(file(r));
+            core.push(cwd_line(r, 3));
+            core.push(file(r));
+        }
+        "cwd-change-in-window" => {
+            core.push(cwd_line(r, 0));
+            core.push(file(r));
+            core.push(ignore(r));
+            let s = r.range(1, 4);
+            core.push(cwd_line(r, s));
+            core.push(file(r));
+            core.push(file(r));
+        }
+        "several-name-display" => {
+            let mut v = vec![];
+            for _ in 0..r.range(2, 3) {
+                v.push(valid_of_kind(r, Kind::Name));
+                v.push(valid_of_kind(r, Kind::Display));
+                if r.chance(1, 2) {
+                    v.push(random_element(r));
+                }
+            }
+            r.shuffle(&mut v);
+            core = v;
+        }
+        "preserve" => {
+            for _ in 0..r.range(1, 3) {
+                core.push(valid_of_kind(r, Kind::PkgOpt));
+                if r.chance(1, 2) {
+                    core.push(random_element(r));
+                }
+            }
+        }
+        _ => {
+            for _ in 0..r.range(3, 30) {
+                core.push(random_element(r));
+            }
+            with_filler = false;
+        }
+    }
+    if !with_filler {
+        return core;
+    }
+    let room = 30usize.saturating_sub(core.len());
+    let before = r.below(room.min(10) + 1);
+    let after = r.below((room - before).min(10) + 1);
+    let fill = |r: &mut Rng, n: usize| -> Vec<Line> {
+        (0..n)
+            .map(|_| loop {
+                let l = random_element(r);
+                if allow_cwd_filler || !matches!(l.entry(), Some(PlistEntry::Cwd(_))) {
+                    break l;
+                }
+            })
+            .collect()
+    };
+    let mut out = fill(r, before);
+    out.extend(core);
+    out.extend(fill(r, after));
+    out
+}
+
+fn truncate_keep_tail(mut v: Vec<Line>) -> Vec<Line> {
+    while v.len() > 30 {
+        v.remove(0);
+    }
+    v
+}
